@@ -173,6 +173,19 @@ func FamilyShape(thorough bool, seed int64) []*Conv {
 		out = append(out, shapeConv("shape", ctorByName("struct").F(g, ctorMapPtrKey.F(g, g.leaf(ln))), nextFormat(), nil, nil))
 		out = append(out, shapeConv("shape", ctorMapPtrKey.F(g, ctorByName("slice").F(g, g.leaf(ln))), nextFormat(), nil, nil))
 	}
+	// named array and named slice types at the top level and below
+	for _, ln := range []string{"int", "float64", "named"} {
+		l := g.leaf(ln)
+		k := g.id()
+		na := shape{Src: fmt.Sprintf("PFXVec%d", k), Tgt: "[]" + l.Tgt, Name: "narr_" + l.Name, Decls: append(append([]string{}, l.Decls...), fmt.Sprintf("type PFXVec%d [2]%s", k, l.Src))}
+		out = append(out, shapeConv("shape", na, nextFormat(), nil, nil))
+		out = append(out, shapeConv("shape", ctorByName("map").F(g, na), nextFormat(), nil, nil))
+		out = append(out, shapeConv("shape", ctorByName("ptr").F(g, na), nextFormat(), nil, nil))
+		k2 := g.id()
+		ns := shape{Src: fmt.Sprintf("PFXLst%d", k2), Tgt: fmt.Sprintf("PFXLsu%d", k2), Name: "nslice_" + l.Name, Decls: append(append([]string{}, l.Decls...), fmt.Sprintf("type PFXLst%d []%s\ntype PFXLsu%d []%s", k2, l.Src, k2, l.Tgt))}
+		out = append(out, shapeConv("shape", ns, nextFormat(), nil, nil))
+		out = append(out, shapeConv("shape", ctorByName("struct").F(g, ns), nextFormat(), nil, nil))
+	}
 	out = append(out, shapeConv("shape", shape{Src: "map[PFXPK]int", Tgt: "map[PFXPK]int", Name: "mapstructptrkey", Decls: []string{"type PFXPK struct {\n\tP *int\n\tN string\n}"}}, nextFormat(), nil, nil))
 	if thorough {
 		rng := rand.New(rand.NewSource(seed))
